@@ -35,7 +35,7 @@ type group struct {
 }
 
 func jobOf(f Finding, c10 bool) Job {
-	return Job{Pair: f.Pair, Kind: f.Kind, K: f.K, Errno: f.Errno, C10: c10}
+	return Job{Pair: f.Pair, Kind: f.Kind, K: f.K, Errno: f.Errno, C10: c10, Script: f.Script}
 }
 
 // Check runs the whole enumeration for C08 (or only the revision-counter crash clause for C10crash).
@@ -104,7 +104,7 @@ func Check(prop string) int {
 			budgetHit = true
 			break
 		}
-		j := Job{Pair: p, Kind: "pair", C10: c10}
+		j := Job{Pair: p, Kind: "pair", C10: c10, Quick: tier != "thorough"}
 		b, _ := json.Marshal(&j)
 		wg.Add(1)
 		pool.Submit(&kernel.Request{ID: i, Cfg: b}, collect(p))
@@ -127,6 +127,8 @@ func Check(prop string) int {
 		tot.CrashStates += r.CrashStates
 		tot.CrashRecover += r.CrashRecover
 		tot.FailRuns += r.FailRuns
+		tot.Continuations += r.Continuations
+		tot.ContStates += r.ContStates
 		tot.LintCalls += r.LintCalls
 		tot.Recoveries += r.Recoveries
 		tot.RevertChecks += r.RevertChecks
@@ -144,6 +146,7 @@ func Check(prop string) int {
 			distinct += r.CrashStates - 1
 		}
 		distinct += r.FailRuns
+		distinct += r.Continuations
 		if r.LintCalls > 0 {
 			lintOps++
 		}
@@ -302,12 +305,12 @@ func Check(prop string) int {
 	c10cov := map[string]interface{}{"crash_points_of_writes_and_SetRevisionCounter": tot.C10Points, "counter_outside_old_new": tot.C10Bad,
 		"rule": "at every boundary between two file-system calls of a write in RW mode, of a write in WO mode and of SetRevisionCounter (process death there) the counter read after reopen is the value before or the value after the operation (WO: unchanged) and never below the value before"}
 	cov := map[string]interface{}{
-		"evaluations":         tot.CrashStates + tot.FailRuns,
+		"evaluations":         tot.CrashStates + tot.FailRuns + tot.Continuations,
 		"distinct_nontrivial": distinct,
 		"rule": "enumeration, not sampling: for every (pre-state, operation) pair the victim process runs the real jiva code under the ptrace tracer; " +
 			"every boundary between two counted file-system calls of the operation (plus before the first and after the last) is materialised as a directory copy and reopened with the real code; " +
 			"every counted call is made to fail once with EIO and, if it can consume space, once with ENOSPC. A case is (pre-state history, operation, crash index | failed call ordinal + errno); " +
-			"distinct_nontrivial counts the crash indexes k>=1 (at least one call of the operation has executed) plus all injected failures; cases are distinct by construction. " +
+			"distinct_nontrivial counts the crash indexes k>=1 (at least one call of the operation has executed) plus all injected failures plus the continuation runs (distinct crash-state content x script); cases are distinct by construction. " +
 			"Crash states with byte-identical directory content within one pair share one recovery (crash_states_recovered counts the recoveries actually executed).",
 		"samples":                  samples,
 		"exhaustive":               exhaustive,
@@ -317,6 +320,9 @@ func Check(prop string) int {
 		"crash_points":             tot.CrashStates,
 		"crash_states_recovered":   tot.CrashRecover,
 		"injected_failures":        tot.FailRuns,
+		"crash_continuations":      tot.Continuations,
+		"crash_states_continued":   tot.ContStates,
+		"continuation_scope":       contScope(tier),
 		"counted_calls":            tot.Calls,
 		"lint_ops":                 lintOps,
 		"lint_calls":               tot.LintCalls,
@@ -516,6 +522,14 @@ func exampleCases(r *Result) []map[string]interface{} {
 			"judged": "operation result vs. directory after reopen: success => complete new state; failure => old state intact; never success over damage"})
 	}
 	return out
+}
+
+func contScope(tier string) string {
+	base := "every distinct (by directory content) crash state that reopens cleanly is used further: a child process opens it with the real code, runs a script to completion and closes; the directory is reopened and compared with the model advanced by the steps reported successful (chain, flags, every acknowledged byte of the history and of the script, retained chain-member user snapshots by revert-on-copy, revision counter = value at restart + acknowledged writes; a step that succeeds must be allowed by the model; a retry must succeed within two attempts when the effect is absent). Scripts: S1-retry = the interrupted operation twice with its original arguments; S2-detour = Snapshot(auto,c1), aligned write, the interrupted operation with its original arguments, write; S3-revert = write, revert to the latest retained user snapshot of the chain. "
+	if tier == "thorough" {
+		return base + "Thorough: crash states of Snapshot(user/auto), RemoveDiffDisk, Revert, ReplaceDisk, Resize, Create; scripts S1, S2, S3."
+	}
+	return base + "Quick (restricted, nothing sampled): crash states of Snapshot(user/auto) and RemoveDiffDisk only; scripts S1 and S2 only."
 }
 
 func tailStr(s string, n int) string {
